@@ -117,15 +117,28 @@ package hotstuffpb
 //@ func AggregateQCToProto property C12
 //@   requires encodable(aggQC.sig) && encodableqcs(aggQC)
 //@   ensures [encoded] result != nil && waqc(result) && encodes(result.Sig, aggQC.sig) && result.View == aggQC.view
-//@   loop 0 invariant [entries] pQCs != nil && fresh(pQCs) && (forall k uint32 :: {pQCs[k]} has(pQCs, k) ==> wqc(pQCs[k]))
+//@   ensures [same-ids] forall k uint32 :: {has(result.QCs, k)} has(result.QCs, k) == has(aggQC.qcs, hotstuff.ID(k))
+//@   ensures [entries] forall k uint32 :: {has(result.QCs, k)} has(result.QCs, k) ==> result.QCs[k] != nil && encodes(result.QCs[k].Sig, aggQC.qcs[hotstuff.ID(k)].signature) && result.QCs[k].View == aggQC.qcs[hotstuff.ID(k)].view && content(result.QCs[k].Hash) == abytes(aggQC.qcs[hotstuff.ID(k)].hash) && len(result.QCs[k].Hash) == 32
+//@   loop 0 invariant [map] pQCs != nil && fresh(pQCs)
+//@   loop 0 invariant [ids] forall k uint32 :: {has(pQCs, k)} has(pQCs, k) == visited(0, hotstuff.ID(k))
+//@   loop 0 invariant [visited-present] forall k uint32 :: {visited(0, hotstuff.ID(k))} visited(0, hotstuff.ID(k)) ==> has(aggQC.qcs, hotstuff.ID(k))
+//@   loop 0 invariant [entries] forall k uint32 :: {has(pQCs, k)} has(pQCs, k) ==> pQCs[k] != nil && allocated(pQCs[k]) && wqc(pQCs[k]) && encodes(pQCs[k].Sig, aggQC.qcs[hotstuff.ID(k)].signature) && pQCs[k].View == aggQC.qcs[hotstuff.ID(k)].view && content(pQCs[k].Hash) == abytes(aggQC.qcs[hotstuff.ID(k)].hash) && len(pQCs[k].Hash) == 32
 //@   modifies alloc
 //@ func AggregateQCFromProto property C10,C12
 //@   requires waqc(m)
 //@   ensures [decoded] m != nil ==> decodes(result.sig, m.Sig) && result.view == m.View && ((m.Sig == nil || m.Sig.Sig == nil) ==> result.sig == nil)
+//@   ensures [same-ids] m != nil ==> (forall k uint32 :: {has(m.QCs, k)} has(result.qcs, hotstuff.ID(k)) == has(m.QCs, k))
+//@   ensures [entries] m != nil ==> (forall k uint32 :: {has(m.QCs, k)} has(m.QCs, k) && m.QCs[k] != nil ==> decodes(result.qcs[hotstuff.ID(k)].signature, m.QCs[k].Sig) && result.qcs[hotstuff.ID(k)].view == m.QCs[k].View && result.qcs[hotstuff.ID(k)].hash == afrom(content(m.QCs[k].Hash), len(m.QCs[k].Hash), hotstuff.Hash{}) && ((m.QCs[k].Sig == nil || m.QCs[k].Sig.Sig == nil) ==> result.qcs[hotstuff.ID(k)].signature == nil))
+//@   loop 0 invariant [map] qcs != nil && fresh(qcs)
+//@   loop 0 invariant [ids] forall k uint32 :: {has(qcs, hotstuff.ID(k))} has(qcs, hotstuff.ID(k)) == visited(0, k)
+//@   loop 0 invariant [visited-present] forall k uint32 :: {visited(0, k)} visited(0, k) ==> has(m.QCs, k)
+//@   loop 0 invariant [entries] forall k uint32 :: {has(qcs, hotstuff.ID(k))} has(qcs, hotstuff.ID(k)) && m.QCs[k] != nil ==> decodes(qcs[hotstuff.ID(k)].signature, m.QCs[k].Sig) && qcs[hotstuff.ID(k)].view == m.QCs[k].View && qcs[hotstuff.ID(k)].hash == afrom(content(m.QCs[k].Hash), len(m.QCs[k].Hash), hotstuff.Hash{}) && ((m.QCs[k].Sig == nil || m.QCs[k].Sig.Sig == nil) ==> qcs[hotstuff.ID(k)].signature == nil)
 //@   modifies alloc
 //@ func verifRoundTripAggregateQC property C12
 //@   requires encodable(aggQC.sig) && encodableqcs(aggQC)
 //@   ensures [round-trip] samesig(result.sig, aggQC.sig) && result.view == aggQC.view
+//@   ensures [round-trip-ids] forall id hotstuff.ID :: {has(result.qcs, id)} has(result.qcs, id) == has(aggQC.qcs, id)
+//@   ensures [round-trip-entries] forall id hotstuff.ID :: {has(result.qcs, id)} has(aggQC.qcs, id) ==> samesig(result.qcs[id].signature, aggQC.qcs[id].signature) && result.qcs[id].view == aggQC.qcs[id].view && result.qcs[id].hash == aggQC.qcs[id].hash
 //@   modifies alloc
 // Sync info: each optional certificate is present after decoding exactly when it was present
 // before encoding, with the same content.
